@@ -546,6 +546,9 @@ def r04_8(ctx) -> None:
     ctx.count("R04.8", n, 1, "try blocks around decrypt_recipient")
 
 
+from .c05 import _resolve_local as _resolve_local_c05
+
+
 def r04_9(ctx) -> None:
     """every serialization hands the caller's sender key on: wherever a function with a `sender_key` parameter calls a function with a
     `sender_key` parameter it passes its own value (ECDH-1PU would otherwise be undecryptable in that serialization only)"""
@@ -566,8 +569,30 @@ def r04_9(ctx) -> None:
                 ctx.check(ok, "R04.9", fn, s.node, f"{fn.short} -> {c.short}", f"{fn.short} does not pass its `sender_key` on to {c.short} "
                           f"({'argument omitted' if a is None else 'passes ' + norm(a)})", "sender_key=sender_key", construct=f"sender_key forwarding {fn.short} -> {c.short}")
     # the key handed to the sender-key resolution is the caller's sender key (not the recipient's key, the plaintext, ...)
-    gs = eng.prog.func("jwe:_guess_sender_key")
-    for s in eng.cg.callers.get(gs, []):
+    try:
+        gs = eng.prog.func("jwe:_guess_sender_key")
+    except AnalysisError:
+        # the helper was specialised away and its copies are written out in the callers: there the key set searched by skid is the caller's `sender_key`
+        gs = None
+        ks_ = eng.prog.cls("_keys:KeySet")
+        gb_ = ks_.methods["get_by_kid"]
+        for fn in eng.prog.all_functions():
+            if not fn.short.startswith("jwe:") or "sender_key" not in fn.params:
+                continue
+            for s in eng.cg.calls_in(fn):
+                if gb_ in s.callees and isinstance(s.node, ast.Call) and isinstance(s.node.func, ast.Attribute) and s.node.args and "skid" in _resolve_local_c05(eng, fn, s.node.args[0]):
+                    n += 1
+                    recv = norm(s.node.func.value)
+                    ctx.check(recv == "sender_key", "R04.9", fn, s.node, f"{fn.short} -> _guess_sender_key", f"{fn.short} resolves the ECDH-1PU sender key from "
+                              f"`{recv}` instead of its `sender_key` argument", "sender_key.get_by_kid(skid)", construct=f"sender key source in {fn.short}")
+                    cfg = cfg_of(fn)
+                    sn = cfg.node_of(s.node)
+                    ctl = [t for t in cfg.nodes if t.kind == "test" and isinstance(t.ast, ast.Name) and sn is not None
+                           and sn not in cfg.reachable(cfg.entry, edge_filter=lambda a_, b_, lab, _t=t: not (a_ is _t and lab == "true"))]
+                    ctl = [t for t in ctl if "skid" not in t.ast.id]
+                    ctx.check(all(t.ast.id == "sender_key" for t in ctl), "R04.9", fn, s.node, f"{fn.short} :: sender key condition", f"the sender key is resolved under a test of "
+                              f"{[t.ast.id for t in ctl]}, not of `sender_key`", "if sender_key:", construct=f"sender key condition in {fn.short}")
+    for s in (eng.cg.callers.get(gs, []) if gs is not None else []):
         if isinstance(s.node, ast.Call) and "sender_key" in s.fn.params:
             n += 1
             a = eng.cg.arg_for_param(s, gs, gs.pos_params[1])
